@@ -362,6 +362,10 @@ func newEventFromUntrustedJSONV1(eventJSON []byte, roomVersion IRoomVersion) (PD
 			err = CheckFields(result)
 			return result, err
 		}
+	} else if _, err = roomVersion.RedactEventJSON(eventJSON); err != nil {
+		// Every accepted event must be redactable (e.g. its content must be an object):
+		// signature checks work on the redacted form and Redact() panics otherwise.
+		return nil, err
 	}
 
 	err = CheckFields(res)
